@@ -164,6 +164,9 @@ impl std::default::Default for SFTRefStorage {
     }
 }
 
+#[cfg(all(any(kani, mmtk_verif), target_pointer_width = "64"))]
+pub use space_map::verif_hooks as verif_hooks_space_map;
+
 #[allow(dead_code)]
 #[cfg(target_pointer_width = "64")] // This impl only works for 64 bits: 1. the mask is designed for our 64bit heap range, 2. on 64bits, all our spaces are contiguous.
 mod space_map {
@@ -272,6 +275,22 @@ mod space_map {
                 let extent = 1 << vm_layout().log_space_extent;
                 (start, start.add(extent))
             }
+        }
+    }
+
+    /// Forwarders for the external verification harnesses (see `crate::verif_hooks`). One call each, no logic.
+    #[cfg(any(kani, mmtk_verif))]
+    pub mod verif_hooks {
+        pub use super::SFTSpaceMap;
+        use super::*;
+        pub fn addr_to_index(addr: Address) -> usize {
+            SFTSpaceMap::addr_to_index(addr)
+        }
+        pub fn index_to_space_range(i: usize) -> (Address, Address) {
+            SFTSpaceMap::index_to_space_range(i)
+        }
+        pub fn table_len(m: &SFTSpaceMap) -> usize {
+            m.sft.len()
         }
     }
 
